@@ -48,7 +48,7 @@ def ToOK : Field → GoVal → TfTy → Prop
       ∃ k, vkindOf info.tf.elemValueType = .prim k ∧ ty = .list (some (.prim k)) ∧
         (getVal info obj = .slice none ∨ ∃ es, getVal info obj = .slice (some es) ∧ ∀ e ∈ es, PrimTyped info e)
     | .objectList =>
-      info.isRepeated = true ∧ info.oneOfName = "" ∧ Reachable info obj ∧
+      info.isRepeated = true ∧ info.oneOfName = "" ∧ Reachable info obj ∧ vkindOf info.tf.elemValueType = .obj ∧
       ∃ as, ty = .list (some (.obj (some as))) ∧ sub ≠ [] ∧
         (isEmptyMsg msg) = false ∧
         (getVal info obj = .slice none ∨ ∃ es, getVal info obj = .slice (some es) ∧
@@ -58,7 +58,7 @@ def ToOK : Field → GoVal → TfTy → Prop
       ∃ k, vkindOf info.tf.elemValueType = .prim k ∧ ty = .map (some (.prim k)) ∧
         (getVal info obj = .map none ∨ ∃ es, getVal info obj = .map (some es) ∧ (es.map (·.1)).Nodup ∧ ∀ e ∈ es, PrimTyped info e.2)
     | .objectMap =>
-      info.isRepeated = false ∧ info.oneOfName = "" ∧ Reachable info obj ∧
+      info.isRepeated = false ∧ info.oneOfName = "" ∧ Reachable info obj ∧ vkindOf info.tf.elemValueType = .obj ∧
       ∃ as, ty = .map (some (.obj (some as))) ∧ sub ≠ [] ∧
         (isEmptyMsg msg) = false ∧
         (getVal info obj = .map none ∨ ∃ es, getVal info obj = .map (some es) ∧ (es.map (·.1)).Nodup ∧
